@@ -14,6 +14,7 @@ from oracles import MODES, round_ref
 class Ctx:
     def __init__(self, setup, units, classes, kind):
         self.setup, self.units, self.classes, self.kind = setup, units, classes, kind
+        self.defined = []     # units defined by a term / derived from base units
 
     def dump(self):
         return {"kind": self.kind,
@@ -75,10 +76,23 @@ def user_ctx(rng, length=14):
     g = HistGen(rng, with_invalid=False, split_items=.4)
     steps = g.history(length)
     w = g.w
+    # targeted: two units of ONE derived type, each defined by a term with a
+    # plain-int factor (the factor between them is int / int), and one more
+    # term-defined unit
+    refcls = [n for n, c in w.classes.items() if c["ref"] is not None and c["quantum"] is None]
+    if refcls and rng.random() < .8:
+        cls = rng.choice(refcls)
+        for kind in ("i", "i", None):
+            st = g.term_unit(only_cls=cls, force_kind=kind)
+            if st is not None:
+                steps.append(st)
     units = {s: dict(cls=u["cls"], scale=u["scale"]) for s, u in w.units.items()}
     classes = {n: dict(dim=c["dim"], ref=c["ref"], quantum=c["quantum"])
                for n, c in w.classes.items()}
-    return Ctx([st["op"] for st in steps if st["expect"] == "ok"], units, classes, "user")
+    ctx = Ctx([st["op"] for st in steps if st["expect"] == "ok"], units, classes, "user")
+    ctx.defined = [st["new_sym"] for st in steps if st["expect"] == "ok"
+                   and st["kind"] in ("term-unit", "derive-unit")]
+    return ctx
 
 
 def amount(rng, onto=None):
